@@ -4,6 +4,7 @@ go 1.26.8
 
 require (
 	github.com/herumi/bls-eth-go-binary v0.0.0-20210917013441-d37c07cfda4e
+	github.com/juju/fslock v0.0.0-20160525022230-4d5c94c67b4b
 	github.com/lidofinance/dc4bc v0.0.0
 )
 
